@@ -36,7 +36,7 @@ func (c *Ctx) playlistFuncs() (all []*ssa.Function, marshal []*ssa.Function) {
 			continue
 		}
 		all = append(all, fn)
-		if fn.Name() == "marshal" || fn.Name() == "Marshal" {
+		if fn.Parent() == nil && c.isMarshalFunc(fn) {
 			marshal = append(marshal, fn)
 		}
 	}
@@ -56,7 +56,7 @@ func (c *Ctx) strSolved() *strInterp {
 
 func inMarshal(fn *ssa.Function) bool {
 	for fn != nil {
-		if fn.Name() == "marshal" || fn.Name() == "Marshal" {
+		if fn.Name() == "marshal" || fn.Name() == "Marshal" || (theCtx != nil && theCtx.isMarshalFunc(fn)) {
 			return true
 		}
 		fn = fn.Parent()
@@ -136,7 +136,8 @@ func ruleS2(c *Ctx) *RuleResult {
 		}
 		ret := si.evalFunc(fn)
 		key := FuncName(fn) + "|ends-with-newline"
-		if ret.last&^cNL == 0 && !ret.mayEmpty {
+		// an exported entry point always prints something; a helper (a phase of an encoder) may print nothing
+		if ret.last&^cNL == 0 && (!ret.mayEmpty || fn.Name() != "Marshal") {
 			r.ok(key, c.Pos(fn.Pos()), FuncName(fn), "every result ends with a newline", "last="+ret.last.String())
 		} else {
 			r.fail(key, c.Pos(fn.Pos()), FuncName(fn), "every result ends with a newline", fmt.Sprintf("possible last characters %v, may be empty: %v — the next tag would be glued to this line", ret.last, ret.mayEmpty))
@@ -201,7 +202,7 @@ func ruleS2(c *Ctx) *RuleResult {
 	for _, spec := range []struct{ typ, tag, uriField string }{
 		{"MediaSegment", "#EXTINF:", "URI"}, {"MultivariantVariant", "#EXT-X-STREAM-INF:", "URI"},
 	} {
-		fn := c.Method("pkg/playlist", spec.typ, "marshal")
+		fn := c.codecFuncOf(spec.typ, "marshal")
 		key := spec.typ + ".marshal|uri-after-" + spec.tag
 		if fn == nil {
 			r.undecided("%s.marshal not found", spec.typ)
@@ -580,7 +581,7 @@ func ruleS5(c *Ctx) *RuleResult {
 				}
 				if ci, ok := in.(ssa.CallInstruction); ok {
 					for _, g := range c.calleesOf(ci) {
-						if g.Name() == "marshal" || g.Name() == "Marshal" {
+						if g.Name() == "marshal" || g.Name() == "Marshal" || c.isMarshalFunc(g) {
 							work = append(work, item{g, loop})
 						}
 					}
